@@ -68,6 +68,30 @@ impl Dimensionality {
         }
         self
     }
+
+    /// Like `pow`, but returns None if a power doesn't fit in an i64.
+    pub fn checked_pow(mut self, exp: i64) -> Option<Dimensionality> {
+        for (_, power) in self.dims.iter_mut() {
+            *power = power.checked_mul(exp)?;
+        }
+        Some(self)
+    }
+
+    /// Like `*`, but returns None if a power doesn't fit in an i64.
+    pub fn checked_mul(&self, rhs: &Dimensionality) -> Option<Dimensionality> {
+        let overflow = self
+            .dims
+            .iter()
+            .any(|(unit, power)| match rhs.dims.get(unit) {
+                Some(other) => power.checked_add(*other).is_none(),
+                None => false,
+            });
+        if overflow {
+            None
+        } else {
+            Some(self * rhs)
+        }
+    }
 }
 
 impl<'a> ops::Mul for &'a Dimensionality {
